@@ -37,6 +37,19 @@ SCALE = float(os.environ.get("C11_SCALE", "1") or 1)
 JVM_ENV = {"JAVA_TOOL_OPTIONS": "-Xss64m"}
 
 
+_START = __import__("threading").Lock()
+
+
+def tlc_staggered(chk, *a, **kw):
+    """chk.tlc from several threads: Check.tlc numbers its scratch files in its first statements, so
+    concurrent calls are started at least 0.4 s apart (the runs themselves overlap)."""
+    import threading
+
+    _START.acquire()
+    threading.Timer(0.4, _START.release).start()
+    return chk.tlc(*a, **kw)
+
+
 class Unsupported(Exception):
     pass
 
@@ -748,12 +761,11 @@ def generate(chk):
     num, depth = (140, 30) if not thorough else (max(20, int(1500 * SCALE)), 32)
 
     def exhaustive():
-        return chk.tlc("MC_FeaSem", cfg="MC_FeaSem_full" if thorough else "MC_FeaSem", workers=8, env=JVM_ENV,
+        return tlc_staggered(chk, "MC_FeaSem", cfg="MC_FeaSem_full" if thorough else "MC_FeaSem", workers=8, env=JVM_ENV,
                        label="MC_FeaSem exhaustive (laws + GEN)", timeout=2400)
 
     def slice_(i):
-        time.sleep(0.5 * (i + 1))  # chk.tlc numbers its scratch directories when it starts
-        return chk.tlc("MC_FeaSem", cfg="MC_FeaSem_sim", simulate="num=%d" % num, depth=depth, workers=1, heap="2g",
+        return tlc_staggered(chk, "MC_FeaSem", cfg="MC_FeaSem_sim", simulate="num=%d" % num, depth=depth, workers=1, heap="2g",
                        env=dict(JVM_ENV, C11_SLICE=i, C11_NSLICES=nsl), label="MC_FeaSem simulation slice %d (GEN)" % i, timeout=2400)
 
     with ThreadPoolExecutor(nsl + 1) as ex:
@@ -1039,20 +1051,19 @@ def judge(chk, traces, label, parallel=4):
 
     if not traces:
         return []
-    nparts = max(1, min(parallel, (len(traces) + 39) // 40))
+    nparts = max(1, min(parallel, (len(traces) + 39) // 40), (len(traces) + 599) // 600)   # at most 600 traces per TLC process
     parts = [traces[i::nparts] for i in range(nparts)]
-    workers = max(2, 16 // nparts)
+    workers = max(2, 16 // min(nparts, parallel))
 
     def one(i):
-        time.sleep(0.5 * i)  # chk.tlc numbers its scratch files when it starts
         part = parts[i]
-        r = chk.tlc("Trace_C11", traces=[strip(t) for t in part], timeout=2400, label="%s part %d/%d" % (label, i + 1, nparts),
+        r = tlc_staggered(chk, "Trace_C11", traces=[strip(t) for t in part], timeout=2400, label="%s part %d/%d" % (label, i + 1, nparts),
                     heap="4g", env=JVM_ENV, workers=workers)
         if r.distinct < 2 * len(part):
             raise MachineryError("Trace_C11 judged %d states for %d traces" % (r.distinct, len(part)))
         return r
 
-    with ThreadPoolExecutor(nparts) as ex:
+    with ThreadPoolExecutor(min(nparts, parallel)) as ex:
         results = list(ex.map(one, range(nparts)))
     rejected = []
     for part, r in zip(parts, results):
@@ -1082,7 +1093,7 @@ def run(chk):
     small, big = generate(chk)
     maxlen = 4 if thorough else 3
     cap = 150 if thorough else 64
-    n_small, n_big = (int(2500 * SCALE), int(5500 * SCALE)) if thorough else (250, 500)
+    n_small, n_big = (int(2000 * SCALE), int(4000 * SCALE)) if thorough else (250, 500)
     chk.rng.shuffle(small)
     chk.rng.shuffle(big)
     progs = small[:n_small] + big[:n_big]
